@@ -244,6 +244,7 @@ inductive RecStep where
   | next (cur : Option Nat)                 -- go on with this current function, state unchanged
   | acc (i : Nat) (f : Func) (vs : List Nat) -- accumulate `vs` on function `i`
   | fail (k : ErrKind)
+  | boom (s : Site)                         -- the byte reader panics
   | bad                                     -- `functions[fun_id]` out of range (cannot happen)
 
 def recStep (g : Notes) (cur : Option Nat) : DRec → RecStep
@@ -265,7 +266,8 @@ def recStep (g : Notes) (cur : Option Nat) : DRec → RecStep
       | none => .bad
       | some f => if f.realEdgeCount % 4294967296 ≠ len / 2 then .fail .edgeCount else .acc i f vs
   | .other => .next cur
-  | .short => .fail .short
+  | .fail k => .fail k
+  | .crash s => .boom s
 
 theorem goRecs_nil (g : Notes) (cur : Option Nat) (st : State) : goRecs g cur [] st = ok st := by
   simp [goRecs]
@@ -277,6 +279,7 @@ theorem goRecs_cons (g : Notes) (cur : Option Nat) (d : DRec) (rest : List DRec)
       | .acc i f vs => (accArcs f.blocks.length 0 f.arcs (st i) vs).bind fun c =>
           goRecs g cur rest (st.set i c)
       | .fail k => err k
+      | .boom s => crash s
       | .bad => crash .idxFunc := by
   cases d with
   | func len id ls cs =>
@@ -308,7 +311,8 @@ theorem goRecs_cons (g : Notes) (cur : Option Nat) (d : DRec) (rest : List DRec)
         · simp [hc]
         · simp [hc]
   | other => simp [goRecs, recStep]
-  | short => simp [goRecs, recStep]
+  | fail k => simp [goRecs, recStep]
+  | crash s => simp [goRecs, recStep]
 
 theorem goRecs_mono (g : Notes) : ∀ (recs : List DRec) (cur : Option Nat) (st r : State),
     goRecs g cur recs st = ok r → st.le r := by
@@ -322,6 +326,7 @@ theorem goRecs_mono (g : Notes) : ∀ (recs : List DRec) (cur : Option Nat) (st 
     · exact ih _ _ _ h
     · obtain ⟨c, hc, h⟩ := bind_eq_ok.1 h
       exact State.le_trans (State.set_le (accArcs_mono _ _ _ _ _ _ hc)) (ih _ _ _ h)
+    · cases h
     · cases h
     · cases h
 
@@ -345,6 +350,7 @@ theorem goRecs_fits (g : Notes) : ∀ (recs : List DRec) (cur : Option Nat) (st 
       exact ih _ _ _ h (State.set_Fits hs (accArcs_fits _ _ _ _ _ _ hc (hs _)))
     · cases h
     · cases h
+    · cases h
 
 theorem goRecs_add_down (g : Notes) : ∀ (recs : List DRec) (cur : Option Nat) (st u r : State),
     goRecs g cur recs (st.add u) = ok r → ∃ r0, goRecs g cur recs st = ok r0 ∧ r = r0.add u := by
@@ -363,6 +369,7 @@ theorem goRecs_add_down (g : Notes) : ∀ (recs : List DRec) (cur : Option Nat) 
       rw [← State.set_add] at h
       obtain ⟨r0, hr0, e⟩ := ih _ _ _ _ h
       exact ⟨r0, by simp only [hc0, bind_ok, hr0], e⟩
+    · cases h
     · cases h
     · cases h
 
@@ -387,6 +394,7 @@ theorem goRecs_add_up (g : Notes) : ∀ (recs : List DRec) (cur : Option Nat) (s
       simp only [this, bind_ok]
       rw [← State.set_add]
       exact ih _ _ _ _ h hf
+    · cases h
     · cases h
     · cases h
 
@@ -542,7 +550,7 @@ theorem addGcdas_replicate {g : Notes} {d : Gcda} : ∀ (k : Nat) (r : State),
 /-! ### mismatching gcda files -/
 
 /-- a function record that does not match the notes: bad length, unknown identifier, or a line /
-cfg checksum that differs from the function's; or the end of the buffer inside a record -/
+cfg checksum that differs from the function's; or a failure of the byte reader inside a record -/
 def BadFnRec (g : Notes) : DRec → Prop
   | .func len id ls cs =>
     len ≠ 0 ∧ (len = 1 ∨ match identToFun g.funcs id with
@@ -550,7 +558,7 @@ def BadFnRec (g : Notes) : DRec → Prop
       | some i => match g.funcs[i]? with
         | none => True
         | some f => ls ≠ f.lineChecksum ∨ cs ≠ f.cfgChecksum)
-  | .short => True
+  | .fail _ => True
   | _ => False
 
 /-- a gcda that must not be mixed in -/
@@ -576,7 +584,8 @@ theorem recStep_bad {g : Notes} {cur : Option Nat} {rec : DRec} (hbad : BadFnRec
         | some f => rw [hf] at hb; simp only at hb ⊢; simp [hb]
   | arcs len vs => exact absurd hbad (by simp [BadFnRec])
   | other => exact absurd hbad (by simp [BadFnRec])
-  | short => simp [recStep]
+  | fail k => simp [recStep]
+  | crash s => exact absurd hbad (by simp [BadFnRec])
 
 theorem goRecs_ok_no_bad (g : Notes) : ∀ (recs : List DRec) (cur : Option Nat) (st r : State),
     goRecs g cur recs st = ok r → ∀ rec ∈ recs, ¬ BadFnRec g rec := by
@@ -594,6 +603,7 @@ theorem goRecs_ok_no_bad (g : Notes) : ∀ (recs : List DRec) (cur : Option Nat)
       · exact ih _ _ _ h rec hmem
       · obtain ⟨c, _, h2⟩ := bind_eq_ok.1 h
         exact ih _ _ _ h2 rec hmem
+      · cases h
       · cases h
       · cases h
 
